@@ -166,6 +166,14 @@ def build_origin(spec: tuple, src=None) -> Any:
         from pyoak.origin import NO_SOURCE
 
         return CodeOrigin(NO_SOURCE, CodeRange(CodePoint(spec[1], 1, spec[1]), CodePoint(spec[2], 1, spec[2])))
+    if k == "nsnp":
+        from pyoak.origin import NO_POSITION, NO_SOURCE, Origin
+
+        return Origin(NO_SOURCE, NO_POSITION)  # not the NoOrigin singleton: an origin object of the base class
+    if k == "posset":
+        from pyoak.origin import Origin, PositionSet
+
+        return Origin(source(spec[1]), PositionSet(tuple(CodeRange(CodePoint(a, 1, a), CodePoint(b, 1, b)) for a, b in spec[2:])))
     if k == "whole":
         from pyoak.origin import EntireSourcePosition, Origin
 
@@ -187,7 +195,10 @@ def gen_origin(rng, allow_multi: bool = True, p_no: float = 0.4) -> tuple:
         b = rng.randrange(a, min(n, a + 8) + 1)
         return ("code", s, a, min(b, n))
     if r < 0.57:
-        return rng.choice([("nsxml", "/a/b"), ("nsxml", "/c"), ("nscode", 1, 4), ("nscode", 0, 0)])  # the NoSource singleton with a real position
+        # the NoSource singleton with a real position; a real origin object made of both placeholders; a plain origin whose
+        # position is a set of positions (the same members in one order or the other: two different origins)
+        s_ = rng.randrange(N_SOURCES)
+        return rng.choice([("nsxml", "/a/b"), ("nsxml", "/c"), ("nscode", 1, 4), ("nscode", 0, 0), ("nsnp",), ("posset", s_, (0, 2), (3, 5)), ("posset", s_, (3, 5), (0, 2)), ("posset", s_, (0, 2), (0, 2), (3, 5))])
     if r < 0.6:
         return ("whole", rng.randrange(N_SOURCES))
     if r < 0.7:
@@ -198,6 +209,8 @@ def gen_origin(rng, allow_multi: bool = True, p_no: float = 0.4) -> tuple:
     members = []
     while len(members) < k:
         m = gen_origin(rng, allow_multi=False, p_no=0.0)
+        if m[0] in ("nsnp", "posset"):
+            continue  # (kept out of multi origins: members are ordinary single-position origins)
         members.append(m)
     if rng.random() < 0.4:
         # all members in one source (the multi-origin then has that source, not a source set)
@@ -224,6 +237,10 @@ def canon_spec(spec: tuple) -> tuple:
         return ("XMLFileOrigin", ("NoSource",), ("XMLPath", spec[1]))
     if k == "nscode":
         return ("CodeOrigin", ("NoSource",), ("CodeRange", (spec[1], 1, spec[1]), (spec[2], 1, spec[2])))
+    if k == "nsnp":
+        return ("Origin", ("NoSource",), ("NoPosition",))
+    if k == "posset":
+        return ("Origin", _canon_src_idx(spec[1]), ("PositionSet", tuple(("CodeRange", (a, 1, a), (b, 1, b)) for a, b in spec[2:])))
     if k == "whole":
         return ("Origin", _canon_src_idx(spec[1]), ("EntireSourcePosition",))
     if k == "multi":
